@@ -114,7 +114,12 @@ def monitorDelete (a : AbsWorld) (r : Req) (obs : Outcome) : Verdict :=
   let target := Path.normpathS r.path
   match obs with
   | .deleted =>
-    if a.colls.contains target then { world := a.rmtree target }
+    if a.colls.contains target then
+      -- the collection's own tag is the symbolic `"ctag"` (the harness writes the current tag so)
+      if !(condOk r.ifMatch none (some (strong "ctag"))) then
+        { world := a.rmtree target,
+          broken := some "C03:conditional-delete-of-collection-executed-although-condition-fails" }
+      else { world := a.rmtree target }
     else
       let cur := a.cur target
       let a' := { a with files := a.files.erase target }
@@ -123,7 +128,12 @@ def monitorDelete (a : AbsWorld) (r : Req) (obs : Outcome) : Verdict :=
         { world := a', broken := some "C03:conditional-delete-executed-although-condition-fails" }
       else { world := a' }
   | .precondition =>
-    if a.colls.contains target then { world := a }
+    if a.colls.contains target then
+      if r.ifMatch.isSome && condOk r.ifMatch none (some (strong "ctag")) then
+        { world := a, broken := some "C03:delete-of-collection-refused-with-412-although-condition-holds" }
+      else if r.ifMatch.isNone then
+        { world := a, broken := some "C03:unconditional-delete-answered-412" }
+      else { world := a }
     else if condOk r.ifMatch none (a.cur target) then
       { world := a, broken := some "C03:delete-refused-with-412-although-condition-holds" }
     else { world := a }
